@@ -2,7 +2,7 @@ CONSTANTS
   SplitBits = 2
   MaxNodes = 28
   MaxT = 17
-  NExp = 3
+  NExp = 2
   MaxLevel = 100000
   CovPrint = FALSE
 CONSTANT Timers <- TimerSet
